@@ -191,6 +191,27 @@ def matrix_task(item):
         mats['serial'] = big[:, :N]
         if not np.array_equal(big[:, N * reps:], mats['default']) or not np.array_equal(big[:, :N], mats['default']):
             out['viols'].append(('inline-vs-serial', {'cfg': cfgname, 'history': h}))
+    # call history on ONE operator: a second large (serial-path) assembly with a trial list of the SAME length in another order
+    reps0 = max(1, (100 // (N * N)) + 1)
+    T1 = elems * reps0 + elems
+    T2 = T1[::-1]
+    try:
+        B1 = SL.bilform_matrix(elems, T1)
+        B2 = SL.bilform_matrix(elems, T2)
+        ok = True
+        for i, te in enumerate(elems):
+            for j, tr in enumerate(T2):
+                out['n'] += 1
+                acausal = te.time_interval[1] <= tr.time_interval[0]
+                if (acausal and B2[i, j] != 0.0) or (not acausal and not (B2[i, j] > 0)) or B2[i, j] != B1[i, len(T1) - 1 - j]:
+                    ok = False
+                    out['viols'].append(('matrix-second-call-same-length-list', {'cfg': cfgname, 'history': h, 'i': i, 'j': j, 'path': 'serial',
+                                                                                 'value': float(B2[i, j]), 'first_call_value': float(B1[i, len(T1) - 1 - j])}))
+                    break
+            if not ok:
+                break
+    except Exception as ex:
+        out['viols'].append(('matrix-second-call-raised', {'cfg': cfgname, 'history': h, 'exc': repr(ex)[:200]}))
     # process-pool path (fork-faithful virtual pool, two schedules: one worker; three workers round robin)
     from mc import vpool
     ctl = vpool.install()
